@@ -201,7 +201,7 @@ PROPS = {
             'SimPy programs are written in a small instruction language (one instruction per generator statement); Python generator mechanics (send/throw/StopIteration) are modelled'],
         assumptions=['a delay of d resumes at now + d, wake-ups of one time step run in order (C01, C02); scopes report failures (C05)',
                      'judge: in ties within one time step (a member failing while another fires, an Interrupt-valued event while an interrupt is pending) both readings are accepted'],
-        partial=['Props/MachineObjects.lean proves on the whole machine, for every program and every number of steps, that an event that has a value keeps exactly that value (event_triggered_once) and keeps its flag and kind; resumption of every waiter at the trigger time is judged on traces, not proved over all machine states'],
+        partial=['Props/MachineObjects.lean proves on the whole machine, for every program and every number of steps, that an event that has a value keeps exactly that value (event_triggered_once), that processed callbacks are never armed again (callbacks_processed_once) and that it keeps its flag and kind; resumption of every waiter at the trigger time is judged on traces, not proved over all machine states'],
     ),
     'C20': dict(
         gen=['Timing', 'Scope'], props=['C20', 'C02', 'Skeletons'], model=['Machine/Run', 'Machine/Step', 'Judge/Judges'], harness='c20',
@@ -428,7 +428,7 @@ MANIFEST_TEXT = {
         technique='Lean 4 proof over the frame machine + exact whole-machine differential traces + Lean trace judge',
         design_ref='6 (C16)'),
     'C18': dict(
-        level='On the whole machine, for every program and every number of steps: event_triggered_once, event_identity, second_trigger_refused (Props/MachineObjects.lean). Lean 4 theorems for every world state on the machine\'s model of usim/py, tied to decisions translated from '
+        level='On the whole machine, for every program and every number of steps: event_triggered_once, callbacks_processed_once, event_identity, second_trigger_refused (Props/MachineObjects.lean). Lean 4 theorems for every world state on the machine\'s model of usim/py, tied to decisions translated from '
               'events.py/core.py on every run: a second trigger is refused and changes nothing, the first stores exactly its value, a '
               'value once set is final (trigger_twice_refused, trigger_sets_value, value_is_final), callbacks run in one step and '
               'never twice, an undefused failure raises in the callback task and until() unwraps it (callbacks_run_once, '
